@@ -411,3 +411,38 @@ def run_reuse_family(fam, rounds=2):
                             f"program {j} of a family of look-alike programs: {a} when built first, {b} when built again after its Vars were freed and others built"])
                 return bad
     return bad
+
+
+# ----------------------------------------------------------------------------- Graph setters after a build
+def graph_setter_probe(prog, req):
+    """Low-level API: a Graph that has been built, then `with_arguments` / `with_name` / `with_opset` /
+    `with_doc`; the new Graph must build like one constructed from scratch. [[key, what]];
+    raises if the internal API is not there (the caller registers that as 'not observable')."""
+    from spox._graph import results
+
+    env = lf.realize(prog)
+    outs = {n: env[i] for n, i in req["outputs"]}
+    ins = [env[i] for _, i in req["inputs"]]
+    for (n, _), v in zip(req["inputs"], ins):
+        v._rename(n)
+    bad = []
+    try:
+        with warnings.catch_warnings():
+            warnings.simplefilter("ignore")
+            g = results(**outs)
+            g.get_arguments()  # builds, and memoises the result in g
+            want = list(results(**outs).with_arguments(*ins).get_arguments())
+            got = list(g.with_arguments(*ins).get_arguments())
+            if got != want:
+                bad.append(["graph-cache:stale-after-with_arguments",
+                            f"results(…) built, then .with_arguments({[n for n, _ in req['inputs']]}): arguments {got}, a Graph made from scratch has {want}"])
+            for label, f in (("with_name", lambda x: x.with_name("renamed")), ("with_doc", lambda x: x.with_doc("doc")),
+                             ("with_opset", lambda x: x.with_opset(("", 18)))):
+                a = f(g.with_arguments(*ins)).to_onnx_model().SerializeToString(deterministic=True)
+                b = f(results(**outs).with_arguments(*ins)).to_onnx_model().SerializeToString(deterministic=True)
+                if a != b:
+                    bad.append([f"graph-cache:stale-after-{label}", f"a built Graph then .{label}(…) serialises differently from one made from scratch"])
+    finally:
+        for v in ins:
+            v._rename(None)
+    return bad
